@@ -279,6 +279,9 @@ def run(tier, rep):
     os.makedirs(td, exist_ok=True)
     env = {common.GUARD: "1", "REBOUND_VERIF_TRACE": os.path.join(sc, "hook_trace.txt")}
     variant = "o3"
+    if "avx512f" in open("/proc/cpuinfo").read():
+        common.build("avx512")            # the only build on which WHFast512 exists
+        variant = "avx512"
     r = common.run_worker(os.path.join(HERE, "w_c08.py"), ["trace", td, str(common.seed()), tier], env=env, variant=variant, timeout=3000)
     if r.returncode != 0:
         if r.returncode < 0:
